@@ -171,7 +171,38 @@ def run(pid, tier, seed, model_ok, replay):
         for d in spec["corpus"]:
             cases += C.load_corpus(d)
         cases += gen_cases(pid, rng, tier, kinds)
-    return run_cases(pid, spec["oracle"], PROJ[spec["proj"]], cases, model_ok)
+    res = run_cases(pid, spec["oracle"], PROJ[spec["proj"]], cases, model_ok)
+    if not replay and pid in ("C03", "C04", "C08", "C10", "C11"):
+        # "for the concurrent cache also at the end of every explored schedule after quiescence"
+        import p_conc
+        cres = p_conc.run(pid, tier, seed, False, None, nprog=20 if tier == "quick" else 300)
+        res["violations"] += cres["violations"]
+        res["evaluations"] += cres["evaluations"]
+        res["distinct_nontrivial"] += cres["distinct_nontrivial"]
+        res["distribution"]["concurrent_schedules"] = cres["distribution"]
+        res["rule"] += "; plus " + cres["rule"]
+    if not replay and pid == "C16":
+        # real-thread stress: k writers updating a fixed key set against m iterating threads
+        srng = random.Random(seed * 13 + 16)
+        scases = []
+        for i in range(6 if tier == "quick" else 80):
+            scases.append((f"iterstress{i}", [f"cfg kind=stress cap={srng.choice(['none', 1000])} hasher={srng.choice(['id', 'mul:11400714819323198485'])}",
+                                              f"ITER writers={srng.choice([1, 2, 3, 4])} iters={srng.choice([1, 2, 3])} keys={srng.choice([8, 40, 64, 300])} "
+                                              f"rounds={srng.choice([100, 300])} seed={srng.randrange(10**6)}"]))
+        out = C.run_impl(scases, timeout=300)
+        iters = 0
+        for name, lines in scases:
+            tr = out.get(name, [])
+            ok = [l for l in tr if l.startswith("iter ok")]
+            if not ok:
+                bad = [l for l in tr if "VIOLATION" in l or "CRASH" in l or "ERR" in l]
+                res["violations"].append((name, lines, (bad[0] if bad else "iterator stress did not complete")[:300]))
+            else:
+                iters += int(ok[0].split("=")[1])
+        res["evaluations"] += len(scases)
+        res["distribution"]["iterator_stress_iterations"] = iters
+        res["rule"] += "; plus real-thread stress of k writer threads updating a fixed key set against m iterating threads (every iteration must yield every key exactly once with a value current during the iteration)"
+    return res
 
 
 def run_cases(pid, oracle, project, cases, model_ok, max_report=3):
